@@ -135,6 +135,103 @@ theorem interpPrint_sem (body : List RStmt) (cl : Nat) (hcl : 1 ≤ cl) (wd sw :
     · exact absurd (j1.trans p5) hw
     · exact Or.inr ⟨by rw [j, hg], hw⟩
 
+/-! ### `utf8.FullRune` = "not a proper prefix of an encoding" (for `Props/C02Stdlib.lean`) -/
+
+open VaxisModel.Model.ParserUtf8 VaxisModel.Lemmas.ParserUtf8 in
+/-- A buffer that some extension completes to a well-formed encoding (DecodeRune consumes all of it,
+    more than one byte) is a proper prefix of the encoding of a scalar value. -/
+theorem proper_of_decode (bs ext : List Nat) (b0 : Nat) (t : List Nat) (hfull : bs ++ ext = b0 :: t) (hext : ext ≠ [])
+    (hsz : (decodeRune (b0 :: t)).2 = (b0 :: t).length) (h1 : (decodeRune (b0 :: t)).2 ≠ 1) :
+    ∃ r, IsScalar r ∧ bs <+: encodeRune r ∧ bs ≠ encodeRune r := by
+  obtain ⟨hs, he⟩ := decodeRune_valid b0 t (fun h => h1 h.2)
+  rw [hsz, List.take_length] at he
+  refine ⟨_, hs, ⟨ext, by rw [he, hfull]⟩, ?_⟩
+  rw [he, ← hfull]
+  intro h
+  have := congrArg List.length h
+  simp at this
+  exact hext this
+
+open VaxisModel.Model.ParserUtf8 VaxisModel.Lemmas.ParserUtf8 in
+/-- `FullRune` is false only for the empty buffer and for a proper prefix of an encoding. -/
+theorem fullRune_false_proper (bs : List Nat) (h : fullRune bs = false) (hne : bs ≠ []) :
+    ∃ r, IsScalar r ∧ bs <+: encodeRune r ∧ bs ≠ encodeRune r := by
+  rcases bs with _ | ⟨b0, rest⟩
+  · exact absurd rfl hne
+  · simp only [fullRune] at h
+    by_cases h0 : b0 < 0x80
+    · simp [h0] at h
+    · simp only [h0, if_false] at h
+      cases hl : lead b0 with
+      | none => simp [hl] at h
+      | some x =>
+        obtain ⟨sz, lo, hi⟩ := x
+        have hls := lead_some hl
+        simp only [hl] at h
+        by_cases hlen : rest.length + 1 ≥ sz
+        · simp [hlen] at h
+        · simp only [hlen, if_false] at h
+          have c80 : isCont 0x80 = true := by decide
+          rcases rest with _ | ⟨b1, rest1⟩
+          · -- only the lead byte
+            simp only [List.length_nil] at hlen
+            rcases hls.1 with rfl | rfl | rfl
+            · have hd := decodeRune_wf2 b0 lo [] lo hi hl ⟨Nat.le_refl _, hls.2.2.2.1⟩
+              exact proper_of_decode [b0] [lo] b0 [lo] rfl (by simp) (by rw [hd]; rfl) (by rw [hd]; simp)
+            · have hd := decodeRune_wf3 b0 lo 0x80 [] lo hi hl ⟨Nat.le_refl _, hls.2.2.2.1⟩ c80
+              exact proper_of_decode [b0] [lo, 0x80] b0 [lo, 0x80] rfl (by simp) (by rw [hd]; rfl) (by rw [hd]; simp)
+            · have hd := decodeRune_wf4 b0 lo 0x80 0x80 [] lo hi hl ⟨Nat.le_refl _, hls.2.2.2.1⟩ c80 c80
+              exact proper_of_decode [b0] [lo, 0x80, 0x80] b0 [lo, 0x80, 0x80] rfl (by simp) (by rw [hd]; rfl)
+                (by rw [hd]; simp)
+          · by_cases hb1 : b1 < lo ∨ hi < b1
+            · simp [hb1] at h
+            · simp only [hb1, if_false] at h
+              have hb1' : lo ≤ b1 ∧ b1 ≤ hi := by omega
+              rcases rest1 with _ | ⟨b2, rest2⟩
+              · simp only [List.length_cons, List.length_nil] at hlen
+                rcases hls.1 with rfl | rfl | rfl
+                · omega
+                · have hd := decodeRune_wf3 b0 b1 0x80 [] lo hi hl hb1' c80
+                  exact proper_of_decode [b0, b1] [0x80] b0 [b1, 0x80] rfl (by simp) (by rw [hd]; rfl) (by rw [hd]; simp)
+                · have hd := decodeRune_wf4 b0 b1 0x80 0x80 [] lo hi hl hb1' c80 c80
+                  exact proper_of_decode [b0, b1] [0x80, 0x80] b0 [b1, 0x80, 0x80] rfl (by simp) (by rw [hd]; rfl)
+                    (by rw [hd]; simp)
+              · simp only [Bool.not_eq_eq_eq_not, Bool.not_false] at h
+                simp only [List.length_cons] at hlen
+                rcases hls.1 with rfl | rfl | rfl
+                · omega
+                · omega
+                · have hr2 : rest2 = [] := by
+                    rcases rest2 with _ | ⟨_, _⟩
+                    · rfl
+                    · simp only [List.length_cons] at hlen; omega
+                  subst hr2
+                  have hd := decodeRune_wf4 b0 b1 b2 0x80 [] lo hi hl hb1' h c80
+                  exact proper_of_decode [b0, b1, b2] [0x80] b0 [b1, b2, 0x80] rfl (by simp) (by rw [hd]; rfl)
+                    (by rw [hd]; simp)
+
+open VaxisModel.Model.ParserUtf8 VaxisModel.Lemmas.ParserUtf8 in
+/-- … and a proper prefix of an encoding is not a full rune. -/
+theorem proper_fullRune_false (bs : List Nat) (hne : bs ≠ [])
+    (h : ∃ r, IsScalar r ∧ bs <+: encodeRune r ∧ bs ≠ encodeRune r) : fullRune bs = false := by
+  obtain ⟨r, hs, ⟨ext, he⟩, hneq⟩ := h
+  cases hf : fullRune bs with
+  | false => rfl
+  | true =>
+    exfalso
+    have hst := decodeRune_stable bs ext (Or.inl hf)
+    have hde := decodeRune_encode r hs []
+    rw [List.append_nil, ← he, hst] at hde
+    rcases bs with _ | ⟨b0, t⟩
+    · exact hne rfl
+    · have hsz := (decodeRune_sz b0 t).2.1
+      rw [hde] at hsz
+      simp only [List.length_append] at hsz
+      have hext : ext = [] := by
+        apply List.eq_nil_of_length_eq_zero; omega
+      subst hext
+      exact hneq (by rw [← he, List.append_nil])
+
 /-! ### the run loop over interpreted bodies = the model's run loop -/
 
 /-- What is needed of a `readRune` body / a `print` body. -/
